@@ -163,6 +163,10 @@ struct M : Machine {
     if (o == "t.linkE") { Peek::linkE(G, toU(k[1]), toU(k[2]), toU(k[3])); return "ok"; }
     if (o == "t.rootAt") { T.rootAt(toU(k[1])); return "ok"; }
     if (o == "t.unRoot") { T.unRoot(toU(k[1]) != 0); return "ok"; }
+    if (o == "t.createNodeFromNode") return U(T.createNodeFromNode(toU(k[1])));
+    if (o == "t.createNodeOnEdge") return U(T.createNodeOnEdge(toU(k[1])));
+    if (o == "t.createNodeFromEdge") return U(T.createNodeFromEdge(toU(k[1])));
+    if (o == "t.orientate") { T.orientate(); return "ok"; }
     if (o == "t.setOutGroup") { T.setOutGroup(toU(k[1])); return "ok"; }
     // ---- queries
     if (o == "t.valid") return B(T.isValid());
@@ -402,6 +406,35 @@ struct MO : Machine {
       NP a = N(lbl(t[1])), b = N(lbl(t[2]));
       return "linking " + q([&] { return lab1(c.getEdgeLinking(a, b)) + " "; });
     }
+    if (op == "o.setRoot") { o.setRoot(N(lbl(t[1]))); return "ok"; }
+    if (op == "o.qi") {
+      // every NodeIndex / EdgeIndex overload of the tree observer, called on a temporary copy of the observer in which every
+      // object has been given an index (the copy observes the same tree; nothing of the case's state changes); answers are
+      // translated back to labels: they must be what the object overloads answer
+      if (!c.isValid() || !c.isRooted()) return "notrooted";
+      TObs tmp(o);
+      std::vector<NP> ns; for (auto& kv : Peek::Ng(tmp)) ns.push_back(kv.first);
+      std::vector<EP> es; for (auto& kv : Peek::Eg(tmp)) es.push_back(kv.first);
+      for (auto& n : ns) tmp.addNodeIndex(n);
+      for (auto& e : es) tmp.addEdgeIndex(e);
+      const TObs& ct = tmp;
+      int la = lbl(t[1]), lb = lbl(t[2]);
+      NP ta, tb; for (auto& n : ns) { if (n->label == la) ta = n; if (n->label == lb) tb = n; }
+      if (!ta || !tb) return "exc:bpp";
+      unsigned ia = ct.getNodeIndex(ta), ib = ct.getNodeIndex(tb);
+      auto nl = [&](const std::vector<unsigned>& v) { std::string r; for (auto i : v) r += U((unsigned long)ct.getNode(i)->label) + " "; return r; };
+      auto el = [&](const std::vector<unsigned>& v) { std::string r; for (auto i : v) r += U((unsigned long)ct.getEdge(i)->label) + " "; return r; };
+      std::string s;
+      s += "ef " + q([&] { EP e = ct.getEdgeToFather(ia); return (e ? U((unsigned long)e->label) : std::string("-")) + " "; });
+      s += "hf " + q([&] { return B(ct.hasFather(ia)) + " "; });
+      s += "sons " + q([&] { return nl(ct.getSons(ia)); }) + "br " + q([&] { return el(ct.getBranches(ia)); });
+      s += "lu " + q([&] { return nl(ct.getLeavesUnderNode(ia)); });
+      s += "np " + q([&] { return nl(ct.getNodePathBetweenTwoNodes(ia, ib)); }) + "ep " + q([&] { return el(ct.getEdgePathBetweenTwoNodes(ia, ib)); });
+      s += "sn " + q([&] { return nl(ct.getSubtreeNodes(ia)); }) + "se " + q([&] { return el(ct.getSubtreeEdges(ia)); });
+      s += "so " + q([&] { unsigned ei = ct.getEdgeIndex(ct.getEdgeToFather(ia)); return U((unsigned long)ct.getNode(ct.getSon(ei))->label) + " "; });
+      s += "fe " + q([&] { unsigned ei = ct.getEdgeIndex(ct.getEdgeToFather(ia)); return U((unsigned long)ct.getNode(ct.getFatherOfEdge(ei))->label) + " "; });
+      return s;
+    }
     if (op == "o.qt") {
       // the object-level queries of a valid rooted tree (the harness does not call them otherwise: cycles do not return)
       if (!c.isValid() || !c.isRooted()) return "notrooted";
@@ -531,6 +564,32 @@ struct MOD : Machine {
     if (op == "w.qe") {
       EP x = E(lbl(t[1]));
       return "son " + q([&] { return lab1(c.getSon(x)) + " "; }) + "fa " + q([&] { return lab1(c.getFatherOfEdge(x)) + " "; });
+    }
+    if (op == "w.setRoot") { o.setRoot(N(lbl(t[1]))); return "ok"; }
+    if (op == "w.qi") {
+      // every NodeIndex / EdgeIndex overload of the DAG observer, on a temporary indexed copy (see o.qi)
+      DObs tmp(o);
+      std::vector<NP> ns; for (auto& kv : Peek::Ng(tmp)) ns.push_back(kv.first);
+      std::vector<EP> es; for (auto& kv : Peek::Eg(tmp)) es.push_back(kv.first);
+      for (auto& n : ns) tmp.addNodeIndex(n);
+      for (auto& e : es) tmp.addEdgeIndex(e);
+      const DObs& ct = tmp;
+      int la = lbl(t[1]), lx = lbl(t[2]);
+      NP ta; for (auto& n : ns) if (n->label == la) ta = n;
+      EP tx; for (auto& e : es) if (e->label == lx) tx = e;
+      auto nl = [&](const std::vector<unsigned>& v) { std::string r; for (auto i : v) r += U((unsigned long)ct.getNode(i)->label) + " "; return r; };
+      std::string s;
+      if (!ta) s += "hf exc:bpp fa exc:bpp sons exc:bpp ";
+      else {
+        unsigned ia = ct.getNodeIndex(ta);
+        s += "hf " + q([&] { return B(ct.hasFather(ia)) + " "; }) + "fa " + q([&] { return nl(ct.getFathers(ia)); }) + "sons " + q([&] { return nl(ct.getSons(ia)); });
+      }
+      if (!tx) s += "son exc:bpp fe exc:bpp";
+      else {
+        unsigned ix = ct.getEdgeIndex(tx);
+        s += "son " + q([&] { return U((unsigned long)ct.getNode(ct.getSon(ix))->label) + " "; }) + "fe " + q([&] { return U((unsigned long)ct.getNode(ct.getFatherOfEdge(ix))->label) + " "; });
+      }
+      return s;
     }
     if (op == "w.below") {
       // getBelowNodes / getBelowEdges check the validity themselves; getLeavesUnderNode does not (a cycle would not return)
